@@ -92,6 +92,7 @@ static void emit_io(const char *fmt, const std::string &label, const PointCloud 
       .raw("out", "{\"np\":" + std::to_string(outp ? outp->num_points() : 0) + ",\"faces\":" + jarr(fo) + ",\"atts\":" + oa + "],\"pt\":" + op + "]}").end();
 }
 
+static bool g_shared_positions = true;   // off for the files handed to the command-line encoder (it refuses a mesh whose triangles are all degenerate by position)
 static Geom gen_io_geom(vrt::Rng &r, bool mesh, bool with_color, bool keep_dups = false, bool zero_area = false) {
   Geom g;
   g.is_mesh = mesh;
@@ -111,7 +112,8 @@ static Geom gen_io_geom(vrt::Rng &r, bool mesh, bool with_color, bool keep_dups 
     }
     if (!identity) for (int p = 0; p < np; ++p) g.pc->attribute(id)->SetPointMapEntry(PointIndex(p), AttributeValueIndex(r.range(0, nv - 1)));
   };
-  addf(GeometryAttribute::POSITION, 3, true);
+  // (every fourth geometry stores fewer position values than it has points: several points share one position entry)
+  addf(GeometryAttribute::POSITION, 3, !(g_shared_positions && r.coin(1, 4)));
   if (r.coin()) addf(GeometryAttribute::NORMAL, 3, r.coin());
   // (PLY: the writer stores texture coordinates of a mesh as a per-face list, the reader skips the list -- the faces behind it must still be read)
   if (r.coin() && (!with_color || mesh)) addf(GeometryAttribute::TEX_COORD, 2, r.coin());
@@ -260,6 +262,7 @@ static int run_cmp(const std::string &fmt, const std::string &a, const std::stri
 
 int main(int argc, char **argv) {
   if (argc >= 4 && !strcmp(argv[1], "rt")) return run_rt(strtoull(argv[2], 0, 10), atol(argv[3]));
+  if (argc >= 5 && !strcmp(argv[1], "gen")) g_shared_positions = false;
   if (argc >= 5 && !strcmp(argv[1], "gen")) return run_gen(strtoull(argv[2], 0, 10), atol(argv[3]), argv[4]);
   if (argc >= 6 && !strcmp(argv[1], "cmp")) return run_cmp(argv[2], argv[3], argv[4], argv[5]);
   fprintf(stderr, "usage: drv_c15 rt <seed> <n> | gen <seed> <n> <dir> | cmp <fmt> <a> <b> <label>\n");
